@@ -4,7 +4,7 @@ package primers
 
 // C19: melting temperatures follow the nearest-neighbour formula monotonically.
 //
-// verif:bound C19 all A/C/G/T sequences in both cases of length 2..5 (quick) / 2..7 (thorough); the three concentrations symbolic reals (oligo 1e-9..1e-3, sodium 1e-3..1, magnesium 0..0.1)
+// verif:bound C19 all A/C/G/T sequences in both cases of length 2..5 (quick) / 2..6 (thorough; the helper clauses to 7); the three concentrations symbolic reals (oligo 1e-9..1e-3, sodium 1e-3..1, magnesium 0..0.1)
 // verif:assume C19 REAL-ARITHMETIC ABSTRACTION: every float64 operation of the code is mapped to exact real arithmetic and math.Log to an uninterpreted strictly monotone function; floating-point rounding is entirely outside the claim
 // verif:assume C19 the oracle takes the parameter values from the package's own tables at run time and fixes only the structure of the formula
 // verif:bound C19 outside the claim: sequences longer than the bound; rounding; the numeric values of the nearest-neighbour parameters (only the strand symmetry of the table is checked)
@@ -50,7 +50,7 @@ func c19NN(u string) (h, s float64) {
 
 func Harness_C19_Formula() {
 	vRealMode()
-	n := 2 + vChoice(vTier(4, 6))
+	n := 2 + vChoice(vTier(4, 5))
 	seq := vBytes(n, "ACGTacgt")
 	primer := vFloat(1e-9, 1e-3)
 	salt := vFloat(1e-3, 1)
